@@ -274,8 +274,6 @@ func tableCommitment(r *vcore.Run) {
 		for _, x := range idx {
 			queried[x.Int64()] = true
 		}
-		mkW := func(e []*big.Int) (w2 interface{}) { return nil }
-		_ = mkW
 		base := map[string]any{"field": j.fc.name, "builder": j.b, "layout": lay, "ops": sh.opsString(), "entries": strs(ent), "indices": strs(idx)}
 
 		// ---- (a) challenge dependence on every witness entry
@@ -336,8 +334,6 @@ func tableCommitment(r *vcore.Run) {
 				return nil
 			}}}
 		}
-		wOf := func(e []*big.Int) interface{ Vector() any } { return nil }
-		_ = wOf
 		run := func(e []*big.Int, forced []*big.Int) (*countStats, *big.Int, error, string) {
 			cp, n := withLyingLookups(sys, mkLie())
 			if n == 0 {
